@@ -71,6 +71,7 @@ TXNS = [
     {'description': 'CCC OTHER', 'amount': 80.0, 'date': date(2025, 1, 2), 'field': {}, 'source': 'Chk'},
     {'description': 'BBB', 'amount': 20.0, 'date': date(2025, 3, 30), 'field': {'kind': ' '}, 'source': 'Visa'},
     {'description': 'AAA STORE', 'amount': 600.0, 'date': date(2025, 3, 7), 'field': {'kind': 'x'}, 'source': 'Amex'},
+    {'description': 'AAA AUTH HOLD', 'amount': 0.0, 'date': date(2025, 3, 8), 'field': {'kind': 'Hold'}, 'source': 'Visa'},
 ]
 
 
@@ -219,6 +220,9 @@ CSV_POOL = [
     ('(unclosed,Broken,CatX,SubX,bad', None, ('Broken', 'CatX', 'SubX'), ('bad',)),
     ('BBB|CCC,Merch BC,CatBC,SubBC,', lambda t: 'BBB' in t['description'].upper() or 'CCC' in t['description'].upper(), ('Merch BC', 'CatBC', 'SubBC'), ()),
     ('AAA[month=3][amount:5-700],Merch M,CatM,SubM,march', lambda t: 'AAA' in t['description'].upper() and t['date'].month == 3 and 5 <= t['amount'] <= 700, ('Merch M', 'CatM', 'SubM'), ('march',)),
+    ('AAA[amount<1],Merch Z,CatZ,SubZ,zero', lambda t: 'AAA' in t['description'].upper() and t['amount'] < 1, ('Merch Z', 'CatZ', 'SubZ'), ('zero',)),
+    ('AAA,Dyn,,,"{split(field.kind, ""W"", 1)}|{source}"', has('AAA'), ('Dyn', '', ''),
+     lambda t: ([(t['field'] or {}).get('kind', '').split('W')[1]] if isinstance(t['field'], dict) and 'kind' in t['field'] and len(t['field']['kind'].split('W')) > 1 else []) + [t['source'] or '']),
     ('STORE[date:2025-03-06..2025-03-31],Merch D,CatD,SubD,', lambda t: 'STORE' in t['description'].upper() and date(2025, 3, 6) <= t['date'] <= date(2025, 3, 31), ('Merch D', 'CatD', 'SubD'), ()),
 ]
 
@@ -244,7 +248,7 @@ def check_csv(run, idxs, ti):
             except Exception:
                 ok = False
         if ok:
-            tags |= {x.strip().lower() for x in tg if x.strip()}
+            tags |= {x.strip().lower() for x in (tg(t) if callable(tg) else tg) if x.strip()}
             if win is None and triple[1]:
                 win = triple
     if run.prop == 'C01':
